@@ -9,6 +9,7 @@ package main
 
 import (
 	"fmt"
+	"sort"
 	"strings"
 	"sync"
 	"time"
@@ -61,6 +62,7 @@ func runC07(c *Ctx) {
 		return
 	}
 	defer k.Stop()
+	c07pool(c, k)
 	rounds := c.N(3, 60)
 	perRound := 12
 	for round := 0; round < rounds; round++ {
@@ -123,6 +125,9 @@ func runC07(c *Ctx) {
 		k.resetPuppets()
 	}
 }
+
+// distances probed for a repeating reference (bit-field boundaries of MakeRef)
+var c07probe = []uint64{1 << 16, 1 << 17, 1 << 19, 1 << 20, 1 << 28, 1 << 32, 1 << 36, 1 << 45, 1 << 46, 1 << 47}
 
 type c07call struct {
 	id       int
@@ -197,6 +202,69 @@ func genC07Script(rng *Rng, forceWrap bool) []c07call {
 	return sc
 }
 
+// c07pool: requests made through a pool (act.Pool forwards the request object) while workers die: every request is
+// presented to exactly one callee and the caller gets the reply made for that request.
+func c07pool(c *Ctx, k *K4) {
+	r := c.R
+	rounds := c.N(6, 120)
+	for it := 0; it < rounds; it++ {
+		w := &c19world{workers: map[int]*c19worker{}, taken: map[int][]int{}, presented: map[int]int{}, size: int64(2 + c.Rng.Intn(3))}
+		ppid, err := k.Node.Spawn(func() gen.ProcessBehavior { return &c19pool{w: w} }, gen.ProcessOptions{})
+		if err != nil {
+			return
+		}
+		_, caller, _ := k.Spawn("poolcaller", false, gen.ProcessOptions{}, "")
+		var hist []string
+		for j := 0; j < 12; j++ {
+			if c.Rng.Chance(1, 3) {
+				// a worker dies outside RemoveWorkers (it stays in the pool's ring until the next dispatch finds it)
+				w.mu.Lock()
+				var ids []int
+				for id := range w.workers {
+					ids = append(ids, id)
+				}
+				w.mu.Unlock()
+				if len(ids) > 0 {
+					sort.Ints(ids)
+					id := ids[c.Rng.Intn(len(ids))]
+					w.mu.Lock()
+					wk := w.workers[id]
+					delete(w.workers, id)
+					w.mu.Unlock()
+					<-wk.ready
+					k.Node.Kill(wk.pid)
+					waitUntilGone(k, wk.pid)
+					hist = append(hist, fmt.Sprintf("kill worker %d", id))
+				}
+			}
+			id := it*1000 + j
+			var v any
+			var e error
+			k.Exec(caller, func(p *Puppet) { v, e = p.CallWithTimeout(ppid, c19req{id}, 2) })
+			rp, ok := v.(c19resp)
+			hist = append(hist, fmt.Sprintf("call %d -> %v %v", id, v, e))
+			if e == nil && (!ok || rp.ID != id) {
+				r.Violation("C07/pool-foreign-reply", fmt.Sprintf("call for request %d through a pool returned %#v", id, v), map[string]interface{}{"history": hist})
+			}
+			r.Case(fmt.Sprintf("poolcall/%d", id), j > 0)
+		}
+		time.Sleep(2 * time.Millisecond)
+		w.mu.Lock()
+		for id, n := range w.presented {
+			if n != 1 {
+				r.Violation("C07/request-presented-twice", fmt.Sprintf("request %d was presented to %d callees of a pool", id, n), map[string]interface{}{"history": hist})
+			}
+		}
+		for _, wk := range w.workers {
+			k.Node.Kill(wk.pid)
+		}
+		w.mu.Unlock()
+		k.Node.Kill(ppid)
+		k.Node.Kill(caller)
+	}
+	k.resetPuppets()
+}
+
 func (w *c07world) setup() {
 	k := w.k
 	var pb *Puppet
@@ -249,6 +317,11 @@ func (w *c07world) reply(by gen.PID, j int, foreign bool) (string, int) {
 func (w *c07world) run(sc []c07call, r *Result) {
 	k := w.k
 	firstRefID := map[int]uint64{}
+	if scriptHasWrap(sc) {
+		// start from a counter whose bits 3..47 are zero, so that adding any probed distance carries into no other field
+		cur := node.VerifUniqID(k.Node)
+		node.VerifSetUniqID(k.Node, ((cur>>48)+1)<<48+7)
+	}
 	for _, cl := range sc {
 		cl := cl
 		type res struct {
@@ -257,8 +330,23 @@ func (w *c07world) run(sc []c07call, r *Result) {
 		}
 		done := make(chan res, 1)
 		if cl.wrapFrom > 0 {
-			// place the counter so that the next reference has the same low word as call wrapFrom's reference
-			node.VerifSetUniqID(k.Node, firstRefID[cl.wrapFrom]+(1<<18)-1)
+			// place the counter so that the next reference has the same low word as call wrapFrom's reference;
+			// if some other distance makes the whole reference repeat (a defect of MakeRef), use that distance instead:
+			// the late reply of the earlier call then carries the reference of this one
+			off := uint64(1 << 18)
+			for _, d := range c07probe {
+				base := firstRefID[cl.wrapFrom]
+				node.VerifSetUniqID(k.Node, base-1)
+				r1 := k.Node.MakeRef()
+				node.VerifSetUniqID(k.Node, base+d-1)
+				r2 := k.Node.MakeRef()
+				if r1.ID == r2.ID {
+					off = d
+					w.hist = append(w.hist, fmt.Sprintf("references %d apart are equal", d))
+					break
+				}
+			}
+			node.VerifSetUniqID(k.Node, firstRefID[cl.wrapFrom]+off-1)
 			w.hist = append(w.hist, fmt.Sprintf("wrap counter for call %d", cl.id))
 		}
 		k.ExecAsync(w.a, func(p *Puppet) {
@@ -273,9 +361,9 @@ func (w *c07world) run(sc []c07call, r *Result) {
 			return
 		}
 		w.mu.Lock()
-		hr := w.held[cl.id].ref
+		_ = w.held[cl.id].ref
 		w.mu.Unlock()
-		firstRefID[cl.id] = hr.ID[1]<<18 | hr.ID[0]
+		firstRefID[cl.id] = node.VerifUniqID(k.Node) // the counter value behind this call's reference (worlds with a wrap run alone)
 		var got *res
 		takeResult := func(wait time.Duration) {
 			select {
